@@ -11,15 +11,42 @@ import (
 	"fmt"
 	"os"
 	"path/filepath"
+	"strconv"
+	"syscall"
 	"testing"
 )
+
+// The address-space limit that makes an unbounded allocation die fast is applied by each fuzz worker to
+// itself: the coordinator maps every worker's shared memory and the whole corpus and must not run under it
+// (it once died of it, which looked like a finding).
+func init() {
+	gib, _ := strconv.Atoi(os.Getenv("VF_WORKER_AS_GIB"))
+	if gib <= 0 {
+		return
+	}
+	for _, a := range os.Args[1:] {
+		if a == "-test.fuzzworker" {
+			lim := uint64(gib) << 30
+			syscall.Setrlimit(syscall.RLIMIT_AS, &syscall.Rlimit{Cur: lim, Max: lim})
+		}
+	}
+}
+
+// vfWriteAtomic replaces path in one step, so that a reader (or a worker killed mid-write) never sees a
+// truncated file.
+func vfWriteAtomic(path string, data []byte) {
+	tmp := path + ".tmp"
+	if os.WriteFile(tmp, data, 0o644) == nil {
+		os.Rename(tmp, path)
+	}
+}
 
 func vfFuzzExec[C any](t *testing.T, p vfProp[C], sub string, c C) {
 	out := os.Getenv("VF_FUZZ_OUT")
 	data := vfMustJSON(c)
 	if out != "" {
 		rf := vfReplayFile{Property: p.ID, Key: "CRASH", Msg: "journaled by fuzz worker", Sub: sub, Case: data}
-		os.WriteFile(filepath.Join(out, fmt.Sprintf("journal-%d.json", os.Getpid())), vfMustJSON(rf), 0o644)
+		vfWriteAtomic(filepath.Join(out, fmt.Sprintf("journal-%d.json", os.Getpid())), vfMustJSON(rf))
 	}
 	ctx := &vfCtx{}
 	f := vfProtect(func() { p.Run(ctx, c) })
@@ -29,7 +56,7 @@ func vfFuzzExec[C any](t *testing.T, p vfProp[C], sub string, c C) {
 			if f.AltCase != nil {
 				rf.Sub, rf.Case = f.AltSub, vfMustJSON(f.AltCase)
 			}
-			os.WriteFile(filepath.Join(out, fmt.Sprintf("fail-%d.json", os.Getpid())), vfMustJSON(rf), 0o644)
+			vfWriteAtomic(filepath.Join(out, fmt.Sprintf("fail-%d.json", os.Getpid())), vfMustJSON(rf))
 		}
 		t.Fatalf("VFFAIL property=%s key=%s: %s", p.ID, f.Key, f.Msg)
 	}
